@@ -58,6 +58,18 @@ CHECKS = {
     design_ref="DESIGN.md §5 C02",
     note="Trusted: TLC, Dataflow.tla (transcription of the documented equations, incl. jump-to-function-label = call site), Machine.tla, harness projection. ecall signatures from the analyzer's a7 facts + documented table.",
     technique="TLA+ least-fixed-point reference (Dataflow!LiveLFP) + executable machine with live monitor + TLC-simulated programs replayed into the real analysis + TLC trace validation"),
+ "C10": dict(
+    category="model_checking",
+    text="Programs from Gen_Values / Gen_Flow (tlc -simulate: shared code, several labels per entry, several returns, undefined-label sets), the corpus, hand-written order-sensitive programs and a three-file include program are linted R times in one process through RVParser::run (fresh UUIDs and hash seeds per parse) and P times per output mode (--json, --compact, --compact --all-files, --no-color, --yaml) in separate rva processes; TLC validates the recorded runs with Trace_Runs: all runs of a program identical (items, order, bytes) and no run with two diagnostics equal in kind, location, message and related information.",
+    design_ref="DESIGN.md §5 C10",
+    note="Trusted: TLC, harness projection. Detection of a hash-order dependence is probabilistic (R = 8|32 in-process runs, P = 4|8 processes per mode); every order dependence found on the pinned tree was repaired, so no known finding is flaky.",
+    technique="TLA+ run-equality / no-duplicate contract (Trace_Runs) + TLC-simulated programs linted repeatedly in-process and in separate processes + TLC trace validation"),
+ "C12": dict(
+    category="model_checking",
+    text="TLC enumerates every history of extra pass runs over {value analysis, ecall termination, liveness} of length 1..3 (Gen_Hist, 39 histories, exhaustive). For each program (Gen_Values / Gen_Flow simulation, corpus incl. nested loops, irreducible flow, recursion, many call sites) and each history the harness analyses a clone of the same parsed program, applies the history with the real passes and records the observables after every step plus the sweep counters from the rva_verif hooks. Trace_Stable is a stateful trace specification: `analysed` must reproduce the first analysis of the program, `extra(pass)` is accepted only as stuttering on nodes/edges/values/live sets/u_def/functions/lints, and every pass run must stay within 2N+3 sweeps.",
+    design_ref="DESIGN.md §5 C12",
+    note="Trusted: TLC, harness projection (canonical JSON per observable group), rva_verif sweep hooks. Lint lists are compared order-insensitively (order is C10's).",
+    technique="TLA+ stateful trace specification (Trace_Stable: extra passes = stuttering) + TLC-enumerated pass histories replayed with the real passes + sweep-counter hooks"),
 }
 PENDING = "check not built yet in this round (planned, see DESIGN.md §5); not claimed until its check is green on the unchanged tree"
 m = {
@@ -67,7 +79,7 @@ m = {
    "guard": "rva_verif",
    "enable": "RUSTFLAGS='--cfg rva_verif --check-cfg cfg(rva_verif)' (set by /verif/harness/.cargo/config.toml and lib/vlib.py build_cli)",
    "baseline_off_cmd": "cd /repo && cargo test --workspace --no-fail-fast --offline",
-   "source_commits": [],
+   "source_commits": ["e4948f8"],
    "add_only": True,
  },
  "engines": [
